@@ -248,6 +248,13 @@ func writeEvidence(pc *propCheck, r *Report, seed int, wall float64, nviol int) 
 	for k, v := range r.Extra {
 		cov[k] = v
 	}
+	if pc.assumptions == nil {
+		pc.assumptions = []string{}
+	}
+	if pc.trusted == nil {
+		pc.trusted = []string{}
+	}
+	cov["trusted_base"] = pc.trusted
 	ev := map[string]any{
 		"property_id": r.Prop,
 		"tier":        r.Tier,
